@@ -18,10 +18,10 @@ CLAIMED.update({
          "note": "Assumes [A]: match components as interface objects (vote / fires stop / fails), Result.is_valid as the member verdict, manifest bytes on disk (json.dump) not modelled; explain-mode off.",
          "tech": TECH + " + syntactic frame scan"},
  "C05": {"cat": "proof", "text": "The five observable effects of error handling are postconditions on normal AND exceptional exits of the real ErrorHandler._handle_if for a symbolic policy list and symbolic validation-mode overrides (the 2^6 x 3^4 split is done by the solver); do_i_* and ValidationMode.set_* are proved against override-else-policy; attribute safety turns a missing attribute into a failed no_unexpected_exception obligation; Expression.matches traps everything; Matcher.matches hands trapped errors over on every exit and Matcher.clear_errors asks every expression whatever the state of the run (loop invariant); ErrorHandler.build records the physical line, line 0 included. Bounded complement: all 63 policy subsets x 5 error kinds (one followed by a stop() on the same line) x offending-line positions incl. line 0 x 7 validation-mode overrides on the real CsvPath.",
-         "note": "Assumes [A]: CsvPath.print as abstract printer log, ECM policy snapshot equals the passed policy, collector is a CsvPath (Result collector not yet under contract), logging dropped.",
+         "note": "The chain Matcher.matches -> clear_errors -> Expression.handle_errors_if -> ErrorHandler()/handle_error -> build/_handle_if is under contract link by link (the policy _handle_if acts on is proved to be the csvpath's configured policy at its call site). Assumes [A]: CsvPath.print as abstract printer log, collector is a CsvPath (Result collector not yet under contract), a csvpath has a config object, logging dropped.",
          "tech": TECH},
  "C13": {"cat": "proof", "text": "Matcher.matches is proved against control clauses taken from the property (no component after a halt, skip means no match and does not outlive the line, stop mid-line means no match, stop as final component keeps the fold), CsvPath.next (generator, ghost yield list) against 'no record after the stopping one', _consider_line against the advance and blank-last clauses, Stop/Skip/Advance/Last._decide_match against fires-iff clauses; all loops by invariants, unbounded. Bounded complement: every position of a stop/skip/advance/last component among 1-3 side-effecting components, every firing line, 3 scan windows (advance also over two windows with a gap), files with interior/trailing blank records, plus stop/skip programs whose first marker is onmatch-qualified, on the real CsvPath.",
-         "note": "Assumes [A]: match components / records as interface objects with ghost fields; generator protocol; scanner well-formedness from C02; explain-mode off.",
+         "note": "Assumes [A]: match components / records as interface objects with ghost fields, none of which evaluates its siblings (false for an onmatch-qualified component placed before the stop/skip: recorded KNOWN-FINDING, exercised by the bounded script); generator protocol; scanner well-formedness from C02; explain-mode off.",
          "tech": TECH},
 })
 CLAIMED.update({
